@@ -51,6 +51,22 @@ def run(pid, tier, seed, replay=None):
             sweeps.append([{"op": "construct", "o": 1}, {"op": "read", "o": 1, "file": f, "armed": -1}, {"op": "readmem", "o": 1, "file": f, "armed": -1},
                            {"op": "read", "o": 1, "file": 1, "armed": -1}, {"op": "read", "o": 1, "file": 2, "armed": -1}, {"op": "destroy", "o": 1},
                            {"op": "constructfrom", "o": 2, "file": f, "armed": -1}])
+        # the stacking constructor: valid stacks of 2 and 3 tables with every position of an allocation failure, the stacked
+        # object then used like any other; stacks of unequal or empty tables must be refused
+        tail = [{"op": "compare", "o": 3, "o2": 3}, {"op": "writemem", "o": 3, "armed": -1}, {"op": "write", "o": 3, "armed": -1},
+                {"op": "permute", "o": 3, "good": True}, {"op": "convolve", "o": 3, "armed": -1}, {"op": "writekey", "o": 3, "key": 2, "armed": -1},
+                {"op": "moveconstruct", "o": 4, "src": 3}, {"op": "writemem", "o": 4, "armed": -1}, {"op": "destroy", "o": 4}, {"op": "destroy", "o": 3},
+                {"op": "destroy", "o": 1}, {"op": "destroy", "o": 2}]
+        for f in (1, 2, 3):
+            for k in [-1] + list(range(0, 48 if tier == "quick" else 90, 1 if f == 2 or tier != "quick" else 3)):
+                head = [{"op": "construct", "o": 1}, {"op": "read", "o": 1, "file": f, "armed": -1}, {"op": "constructfrom", "o": 2, "file": f, "armed": -1}]
+                sweeps.append(head + [{"op": "stack", "o": 3, "s1": 1, "s2": 2, "three": k % 2 == 0, "so": 1 + (k % 3 == 0), "armed": k}] + tail)
+        for fa, fb in ((1, 2), (2, 3), (3, 1)):
+            sweeps.append([{"op": "construct", "o": 1}, {"op": "read", "o": 1, "file": fa, "armed": -1}, {"op": "constructfrom", "o": 2, "file": fb, "armed": -1},
+                           {"op": "stack", "o": 3, "s1": 1, "s2": 2, "three": False, "so": 2, "armed": -1}] + tail)
+        sweeps.append([{"op": "construct", "o": 1}, {"op": "construct", "o": 2}, {"op": "stack", "o": 3, "s1": 1, "s2": 2, "three": True, "so": 2, "armed": -1}] + tail)
+        sweeps.append([{"op": "construct", "o": 1}, {"op": "read", "o": 1, "file": 1, "armed": -1}, {"op": "construct", "o": 2},
+                       {"op": "stack", "o": 3, "s1": 1, "s2": 2, "three": False, "so": 2, "armed": -1}] + tail)
         hist = sweeps + hist
         hf = os.path.join(wd, "hist.ndjson")
         vlib.write_ndjson(hf, hist)
@@ -77,7 +93,7 @@ def run(pid, tier, seed, replay=None):
             raise vlib.Infra("Trace_Lifecycle failed:\n" + res.out[-2500:])
         for d in rep[-1]["deviations"]:
             ev = rows[d["line"] - 1]
-            ck.violation({"class": d["kind"], "op": d["op"], "armed": d["armed"] >= 0, "pre_populated": ev["pre"]["ndim"] > 0, "kind": ev.get("kind"), "file": ev.get("file")},
+            ck.violation({"class": d["kind"], "op": d["op"], "armed": d["armed"] >= 0, "pre_populated": ev["pre"]["ndim"] > 0, "kind": ev.get("kind"), "file": ev.get("file")} if d["op"] != "stack" else {"class": d["kind"], "op": "stack", "armed": d["armed"] >= 0, "kind": ev.get("kind")},
                          {"what": "call violates the life-cycle contract: " + d["kind"], "event": {k: ev[k] for k in ev if k not in ("want",)}, "line": d["line"]})
         ck.cov["traces_validated_against_impl"] = len(hist)
         ck.cov["evaluations"] = len(rows)
